@@ -591,11 +591,13 @@ func (w *c47World) Close() {
 // the check
 // ---------------------------------------------------------------------------
 
-func c47SelfTest(t *testing.T, eng *evloop.Engine) {
+func c47SelfTest(t *testing.T, r *vx.Run, eng *evloop.Engine) {
 	// 1. the closing oracle accepts a correct run that exercises the slow-consumer path ...
 	ops := []string{"reload/B", "up/P1/a+", "tick", "up/P2/a+", "up/P1/a0", "read"}
 	if f := eng.Replay(func() evloop.World { return c47NewWorld(nil, c47UpdatesThorough) }, ops); f != nil {
-		t.Fatalf("self-test: unexpected failure on %v: %s", ops, f.Message)
+		// the real code fails this fixed history: that is a verdict, not a tool failure
+		r.Violation(f.Signature, f.Message, map[string]any{"config": "c47-thorough", "ops": ops})
+		return
 	}
 	// 2. ... and rejects a wrong answer: same run, but the reference is told that P1's source a
 	// still holds its first group (i.e. as if the implementation had lost the emptying update).
@@ -643,7 +645,7 @@ func TestVerifC47(t *testing.T) {
 		}
 		return
 	}
-	c47SelfTest(t, &evloop.Engine{T: t})
+	c47SelfTest(t, r, &evloop.Engine{T: t})
 	depth := vx.Pick(r, 6, 9)
 	if v := os.Getenv("VERIF_C47_DEPTH"); v != "" { // experiments only
 		fmt.Sscan(v, &depth)
